@@ -18,8 +18,11 @@ import (
 // Addr is a fake TCP address.
 type Addr struct{ Net, S string }
 
+//go:norace
 func (a Addr) Network() string { return a.Net }
-func (a Addr) String() string  { return a.S }
+
+//go:norace
+func (a Addr) String() string { return a.S }
 
 var (
 	errClosed  = errors.New("use of closed network connection")
@@ -37,9 +40,12 @@ type world struct {
 
 var w *world
 
+//go:norace
 func init() { vsched.OnReset(Reset); Reset() }
 
 // Reset drops all listeners and connections (called after every execution).
+//
+//go:norace
 func Reset() {
 	w = &world{nextPort: 50001, listeners: map[string]*Listener{}, dials: map[string]int{}}
 }
@@ -65,9 +71,12 @@ type Conn struct {
 	OnWrite  func(c *Conn, b []byte)
 }
 
+//go:norace
 func (c *Conn) String() string { return "conn:" + c.name }
 
 // Pipe creates a connected pair with the given addresses.
+//
+//go:norace
 func Pipe(aLocal, bLocal string) (*Conn, *Conn) {
 	a := &Conn{name: aLocal + "->" + bLocal, local: Addr{"tcp", aLocal}, remote: Addr{"tcp", bLocal}, cutAt: -1}
 	b := &Conn{name: bLocal + "->" + aLocal, local: Addr{"tcp", bLocal}, remote: Addr{"tcp", aLocal}, cutAt: -1}
@@ -77,6 +86,8 @@ func Pipe(aLocal, bLocal string) (*Conn, *Conn) {
 }
 
 // NewAddr returns a fresh deterministic local address.
+//
+//go:norace
 func NewAddr() string {
 	p := w.nextPort
 	w.nextPort++
@@ -84,18 +95,28 @@ func NewAddr() string {
 }
 
 // Peer returns the other end.
+//
+//go:norace
 func (c *Conn) Peer() *Conn { return c.peer }
 
 // CutAfter breaks the connection (both directions) as soon as this end has written n bytes in total.
+//
+//go:norace
 func (c *Conn) CutAfter(n int) { c.cutAt = n }
 
 // ChunkReads limits every Read on this end to n bytes.
+//
+//go:norace
 func (c *Conn) ChunkReads(n int) { c.chunk = n }
 
 // FailWrites makes every later Write on this end fail with err.
+//
+//go:norace
 func (c *Conn) FailWrites(err error) { c.writeErr = err }
 
 // Break cuts the connection now (both directions, like a network failure); a scheduling point.
+//
+//go:norace
 func (c *Conn) Break() {
 	vsched.Point(vsched.KConnClose, vsched.Multi{c, c.peer}, nil)
 	c.broken = true
@@ -103,19 +124,28 @@ func (c *Conn) Break() {
 }
 
 // Readable tells whether a Read would return now.
+//
+//go:norace
 func (c *Conn) readable() bool {
 	return len(c.in) > 0 || c.inEOF || c.broken || c.closed
 }
 
 // Pending returns the number of unread bytes queued for this end.
+//
+//go:norace
 func (c *Conn) Pending() int { return len(c.in) }
 
 // IsClosed reports whether this end was closed locally.
+//
+//go:norace
 func (c *Conn) IsClosed() bool { return c.closed }
 
 // Dead reports whether this end can no longer receive anything.
+//
+//go:norace
 func (c *Conn) Dead() bool { return c.closed || ((c.inEOF || c.broken) && len(c.in) == 0) }
 
+//go:norace
 func (c *Conn) Read(b []byte) (int, error) {
 	if len(b) == 0 {
 		return 0, nil
@@ -133,9 +163,9 @@ func (c *Conn) Read(b []byte) (int, error) {
 		if c.chunk > 0 && n > c.chunk {
 			n = c.chunk
 		}
+		raceRead(c)
 		copy(b, c.in[:n])
 		c.in = c.in[n:]
-		raceRead(c)
 		return n, nil
 	}
 	if c.broken {
@@ -145,6 +175,7 @@ func (c *Conn) Read(b []byte) (int, error) {
 	return 0, io.EOF
 }
 
+//go:norace
 func (c *Conn) Write(b []byte) (int, error) {
 	vsched.Point(vsched.KConnWrite, vsched.Multi{c, c.peer}, nil)
 	c.Writes++
@@ -187,6 +218,8 @@ func (c *Conn) Write(b []byte) (int, error) {
 }
 
 // Close closes this end; the other end reads EOF after draining.
+//
+//go:norace
 func (c *Conn) Close() error {
 	vsched.Point(vsched.KConnClose, vsched.Multi{c, c.peer}, nil)
 	if c.closed {
@@ -198,10 +231,19 @@ func (c *Conn) Close() error {
 	return nil
 }
 
-func (c *Conn) LocalAddr() net.Addr                { return c.local }
-func (c *Conn) RemoteAddr() net.Addr               { return c.remote }
-func (c *Conn) SetDeadline(t time.Time) error      { return nil }
-func (c *Conn) SetReadDeadline(t time.Time) error  { return nil }
+//go:norace
+func (c *Conn) LocalAddr() net.Addr { return c.local }
+
+//go:norace
+func (c *Conn) RemoteAddr() net.Addr { return c.remote }
+
+//go:norace
+func (c *Conn) SetDeadline(t time.Time) error { return nil }
+
+//go:norace
+func (c *Conn) SetReadDeadline(t time.Time) error { return nil }
+
+//go:norace
 func (c *Conn) SetWriteDeadline(t time.Time) error { return nil }
 
 // Listener is an in-memory listener registered under its address.
@@ -213,17 +255,24 @@ type Listener struct {
 	Accepts int
 }
 
+//go:norace
 func (l *Listener) String() string { return "listener:" + l.addr.S }
 
+//go:norace
+func (l *Listener) acceptable() bool { return len(l.backlog) > 0 || l.closed }
+
 // Listen registers a listener.
+//
+//go:norace
 func Listen(addr string) *Listener {
 	l := &Listener{addr: Addr{"tcp", addr}}
 	w.listeners[addr] = l
 	return l
 }
 
+//go:norace
 func (l *Listener) Accept() (net.Conn, error) {
-	vsched.Block(vsched.KAccept, l, func() bool { return len(l.backlog) > 0 || l.closed })
+	vsched.Block(vsched.KAccept, l, l.acceptable)
 	if l.closed {
 		return nil, &net.OpError{Op: "accept", Net: "tcp", Err: errClosed}
 	}
@@ -233,6 +282,7 @@ func (l *Listener) Accept() (net.Conn, error) {
 	return c, nil
 }
 
+//go:norace
 func (l *Listener) Close() error {
 	vsched.Point(vsched.KConnClose, l, nil)
 	l.closed = true
@@ -242,12 +292,17 @@ func (l *Listener) Close() error {
 	return nil
 }
 
+//go:norace
 func (l *Listener) Addr() net.Addr { return l.addr }
 
 // Backlog returns the number of connections waiting to be accepted.
+//
+//go:norace
 func (l *Listener) Backlog() int { return len(l.backlog) }
 
 // DialCount returns how many dial attempts were made to addr.
+//
+//go:norace
 func DialCount(addr string) int { return w.dials[addr] }
 
 // Dialer mirrors the fields of net.Dialer used by the code under test.
@@ -259,9 +314,12 @@ type Dialer struct {
 // DialHook, if set, is consulted on every dial (harness-controlled reachability).
 var DialHook func(addr string, attempt int) (refuse bool)
 
+//go:norace
 func init() { vsched.OnReset(func() { DialHook = nil }) }
 
 // Dial connects to a registered listener.
+//
+//go:norace
 func (d *Dialer) Dial(network, addr string) (net.Conn, error) {
 	l := w.listeners[addr]
 	if l != nil {
@@ -285,15 +343,23 @@ func (d *Dialer) Dial(network, addr string) (net.Conn, error) {
 }
 
 // TLSDialWithDialer is not modelled.
+//
+//go:norace
 func TLSDialWithDialer(d *Dialer, network, addr string, cfg *tls.Config) (net.Conn, error) {
 	return nil, errors.New("vnet: TLS is not modelled")
 }
 
 // PeerClosed reports whether the other end has been closed locally by its owner.
+//
+//go:norace
 func (c *Conn) PeerClosed() bool { return c.peer.closed }
 
 // Broken reports whether the connection was cut.
+//
+//go:norace
 func (c *Conn) Broken() bool { return c.broken }
 
 // Conns returns every connection end created in this execution (harness use).
+//
+//go:norace
 func Conns() []*Conn { return w.conns }
